@@ -11,6 +11,7 @@ Ops (one output line each):
 * `pub <topic> <n>`       `hub.publish(topic, json!(n))`                                       → `ok`
 * `recv <conn>`           `push_rx.try_recv()` → `-` | `gone` | `method=<m> sid=sub-<k> data=<n>`
 * `close <conn>`          drop `push_rx`                                                       → `ok` | `gone`
+* `shut <conn>`           `push_rx.close()`, receiver kept: closed with its backlog still queued → `ok` | `gone`
 * `racepub <topic> <n> <k>` publish and `unsubscribe("sub-<k>")` as two concurrent tasks     → `ok removed=<0|1>`
 * `racepub <topic> <n> <k> <burn>` the same with a task switch forced inside `publish` (closed victim) → `ok`
 * `subn <conn> <topic> <c>` `c` subscribes in a row                                           → `first:id=.. last:id=..`
@@ -130,6 +131,10 @@ def step (s : St) (toks : List String) : St × String :=
   | ["close", c] =>
     match c.toNat? with
     | some c => if c < s.conns then run s (.close c) else (s, "bad-op")
+    | none => (s, "bad-op")
+  | ["shut", c] =>
+    match c.toNat? with
+    | some c => if c < s.conns then run s (.shut c) else (s, "bad-op")
     | none => (s, "bad-op")
   | ["len"] => run s .len
   | _ => (s, "bad-op")
